@@ -5,9 +5,10 @@
 -/
 import G9.Driver.Wire
 import G9.Driver.Logger
+import G9.Driver.SrvSeq
 open G9 G9.Driver
 
-def handlers : List (String → List String → Option String) := [wire, logger]
+def handlers : List (String → List String → Option String) := [wire, logger, srvseq]
 
 def answer (line : String) : String :=
   match (line.trimAscii.toString.splitOn " ").filter (· ≠ "") with
